@@ -925,7 +925,7 @@ class Emitter:
                 base = ".eq"
             else:
                 raise Untranslatable("pattern not mapped: " + pt)
-            if p[2]:
+            if p[2] and pt not in self.cfg.get("patterns_noargs", []):
                 return "(" + base + " " + " ".join(self.pat(x) for x in p[2]) + ")"
             return base
         raise Untranslatable("pattern kind")
@@ -1260,6 +1260,9 @@ class Emitter:
             if e1[0] == "call" and e1[1][0] == "path" and self.path_text(e1[1][1]) in cfg.get("try_calls", {}):
                 return (cfg["try_calls"][self.path_text(e1[1][1])], [a for a in e1[2] if not self.is_parser(a)], False)
             return None
+        if e[0] == "call" and e[1][0] == "path" and self.path_text(e[1][1]) in cfg.get("result_calls", {}):
+            # a call whose value is a `Result` in tail position: `f(x)` there is `Ok(f(x)?)`
+            return (cfg["result_calls"][self.path_text(e[1][1])], list(e[2]), False)
         if e[0] in ("mcall", "call") and cfg.get("effect_prefixes"):
             txt = self.rust_text(e)
             for pre, tmpl in cfg["effect_prefixes"].items():
@@ -1368,6 +1371,8 @@ class Emitter:
             if e[3] is None:
                 raise Untranslatable("`if` without else in value position")
             return (f"(if {self.cond(e[1])} then\n{indent(self.o_blockval(e[2], k))}\nelse\n{indent(self.o_blockval(e[3], k))})")
+        if kind == "match" and self.rust_text(e[1]) in self.cfg.get("result_exprs", {}):
+            return self.o_result_match(self.cfg["result_exprs"][self.rust_text(e[1])], e[2], k)
         if kind == "match":
             def arms(sv):
                 out = []
@@ -1381,6 +1386,23 @@ class Emitter:
             return self.o_block(e[1], k)
         raise Untranslatable("effectful expression kind " + kind)
 
+    def o_result_match(self, lean, arms, k):
+        """`match <Result-valued expression> { Ok(p) => …, Err(e) => … }` on an expression the table reifies as an
+        `Outcome`: the `Ok` / `Err` arms, the other outcomes pass through"""
+        out = []
+        for pats, guard, body in arms:
+            if guard is not None or len(pats) != 1 or pats[0][0] != "ppath" or self.path_text(pats[0][1]) not in ("Ok", "Err") \
+                    or len(pats[0][2]) != 1:
+                raise Untranslatable("arm of a match on a Result")
+            which = self.path_text(pats[0][1])
+            inner = pats[0][2][0]
+            if which == "Err" and inner[0] == "pvar":
+                self.err_vars = getattr(self, "err_vars", set()) | {inner[1]}
+            ctor = ".ok" if which == "Ok" else ".err"
+            out.append(f"| {ctor} {self.pat(inner)} =>\n" + indent(self.o_blockval(body, k)))
+        out.append('| .panic s => .panic s\n| .hang => .hang\n| .fault => .fault')
+        return f"(match {lean} with\n" + "\n".join(out) + ")"
+
     def o_blockval(self, b, k):
         if b[0] == "block":
             return self.o_block(b[1], k)
@@ -1389,6 +1411,9 @@ class Emitter:
     def o_return(self, e):
         v = e[1]
         if v is not None and v[0] == "call" and v[1][0] == "path" and v[1][1] == ["Err"]:
+            a = v[2][0] if v[2] else None
+            if a is not None and a[0] == "path" and len(a[1]) == 1 and a[1][0] in getattr(self, "err_vars", set()):
+                return f"(.err {self.v(a[1][0])})"       # the error caught by an enclosing `Err(e)` arm
             return "(.err .format)"
         if v is not None and v[0] == "call" and v[1][0] == "path" and v[1][1] == ["Ok"] and not self.has_effect(v[2]) \
                 and getattr(self, "final_k", None) is not None:
@@ -1405,10 +1430,27 @@ class Emitter:
         kind = s[0]
         if kind == "let":
             _, pat, init, mut, ty, els = s
+            if pat[0] == "pvar" and pat[1] in self.cfg.get("ignore_lets", []):
+                return cont()
             if els is not None or init is None:
                 raise Untranslatable("let form")
             ptxt = self.pat(pat)
             return self.o_ex(init, lambda v: f"let {ptxt} := {v}\n{cont()}")
+        if kind == "expr" and any(self.rust_text(s[1]).startswith(pre) for pre in self.cfg.get("ignore_stmts", [])):
+            return cont()
+        if kind == "expr" and s[1][0] == "iflet" and s[1][4] is None:
+            _, ipat, scrut, th, _el = s[1]
+            key = self.rust_text(scrut)
+            if key in self.cfg.get("result_exprs", {}) and ipat[0] == "ppath" and self.path_text(ipat[1]) == "Err" and len(ipat[2]) == 1:
+                inner = ipat[2][0]
+                if inner[0] == "pvar":
+                    self.err_vars = getattr(self, "err_vars", set()) | {inner[1]}
+                return (f"(match {self.cfg['result_exprs'][key]} with\n| .err {self.pat(inner)} =>\n"
+                        f"{indent(self.o_block(th[1], lambda v: cont()))}\n| _ =>\n{indent(cont())})")
+            if self.has_effect(scrut):
+                raise Untranslatable("effect in the scrutinee of `if let`")
+            return (f"(match {self.ex(scrut)} with\n| {self.pat(ipat)} =>\n{indent(self.o_block(th[1], lambda v: cont()))}\n"
+                    f"| _ =>\n{indent(cont())})")
         if kind == "expr":
             _, e, semi = s
             if not rest and not semi:
